@@ -36,8 +36,8 @@ def main(tier, seed):
     c08.obligations(chk)
     chk.trusted.add("meta: __init__ clauses (ordered_routines = declared members) + __call__ clauses (first acceptor "
                     "over ordered_routines) compose to the statement")
-    if tier == "thorough":
-        fails, n, d = c08_concrete.search(seed=seed, stop_at=3, n_random=400)
+    if tier in ("quick", "thorough"):
+        fails, n, d = c08_concrete.search(seed=seed, stop_at=3, n_random=400 if tier == "thorough" else 60)
         chk.bounded.append({"name": "bounded cross-check: unions over the 12-type pool x input pool vs per-member routines",
                             "evaluations": n, "distinct_nontrivial": d, "failures": len(fails),
                             "rule": "permutations of a 5-type core with None at every position (len 2-3) + random tuples (len 2-4); x 38 inputs; unmarshal and marshal"})
